@@ -318,7 +318,7 @@ def run(ctx):
                      "constant terms of uniform angles are not checked (row differences only)",
                      "the KS distance over 4000 seeded draws is supportive evidence, not a certificate",
                      "rounding: pytensor keeps float32-representable Python-float parameters as float32 constants, so densities, draws and sigma are compared to 2e-6 relative, ln_prior differences to 1e-5 (1+|d|)"],
-        trusted_extra=["Coq-Interval through Base/RealEnc.v (ln, exp, sqrt at 60 bits)"],
+        trusted_extra=["Coq-Interval through Base/RealEnc.v (ln, exp, sqrt at 60 bits)", "translator tools/consts2v.py (Kipping Beta parameters; fail-closed)"],
     )
 
 
